@@ -25,25 +25,26 @@
      "finish_any_fin"      the stream counts as finished when either side has sent FIN
      "state_frozen_after_fin"  update_state returns early once the flow is finished (an RST after a FIN is ignored)
      "sweep_by_create_time"    the idle sweep compares the creation time, not the time of the last packet
-     "announce_on_any_syn"     a SYN+ACK for an unknown connection creates an entry too *)
+     "announce_on_any_syn"     a SYN+ACK for an unknown connection creates an entry too
+     "ignore_before_state"     a flow told to ignore data returns before update_state (its FIN / RST is never seen) *)
 EXTENDS FollowerScripts, Integers, FiniteSets, TLC
-CONSTANTS Deltas, KeepAlive, MaxChunks, MaxBytes, Cap, Variant,
+CONSTANTS Deltas, KeepAlive, MaxChunks, MaxBytes, Cap, Variant, Ignores,
           Scripts1, Scripts2      \* script numbers the two connections may follow
 
 Conn == {"c1", "c2"}
 SByte(c, e, q) == IF q < 0 THEN 0 ELSE ((q * 7 + (IF e = "c" THEN 3 ELSE 11)) % 250) + 1
 A == INSTANCE FollowerAbs WITH ByteOf <- SByte
 
-VARIABLES sc, pos, attach,      \* environment: script of each connection, position in it, attach mode
+VARIABLES sc, pos, attach, ignore,      \* environment: script of each connection, position in it, attach mode, ignored direction
           table,                \* conn -> [client, cf, sf, last, created]   (cf: what the creator sends, sf: the other direction)
           lastCleanup,          \* relative time of the last sweep (<= 0)
           conns,                \* the reference table (FollowerAbs), updated by Judge
           ok                    \* verdict on the last step
-vars == <<sc, pos, attach, table, lastCleanup, conns, ok>>
+vars == <<sc, pos, attach, ignore, table, lastCleanup, conns, ok>>
 
 Flow0(k0) == [st |-> "UNKNOWN", k |-> k0, buf |-> {}]       \* buf: set of <<off, len>>, at most one per off
 Init == /\ sc \in [Conn -> Scripts1 \cup Scripts2] /\ sc["c1"] \in Scripts1 /\ sc["c2"] \in Scripts2
-        /\ pos = [c \in Conn |-> 0] /\ attach \in BOOLEAN
+        /\ pos = [c \in Conn |-> 0] /\ attach \in BOOLEAN /\ ignore \in Ignores
         /\ table = << >> /\ lastCleanup = -Cap /\ conns = << >> /\ ok = TRUE
 
 \* ---- DataTracker::process_payload in logical coordinates: returns [k, buf, added] ----
@@ -109,7 +110,7 @@ Step(c, d) ==
            tb2 == [x \in (DOMAIN tb0) \ gone |-> tb0[x]]
            obs == p @@ [cb |-> [i \in 1..Cardinality(gone) |-> Cb("term", SetToSeq(gone)[i], << >>, "TIMEOUT", "?")],
                         live |-> SetToSeq(DOMAIN tb2), chunks |-> 0, bytes |-> 0, buf |-> [c |-> << >>, s |-> << >>], thrown |-> ""]
-           j == A!Judge(cn0, [attach |-> attach, keepAlive |-> KeepAlive, maxChunks |-> MaxChunks, maxBytes |-> MaxBytes], obs)
+           j == A!Judge(cn0, [attach |-> attach, keepAlive |-> KeepAlive, maxChunks |-> MaxChunks, maxBytes |-> MaxBytes, ignore |-> ignore], obs)
        IN /\ table' = tb2 /\ lastCleanup' = (IF sweepDue THEN 0 ELSE lc0)
           /\ ok' = j.ok /\ conns' = j.next
   ELSE LET s0 == IF found THEN tb0[c]
@@ -122,8 +123,10 @@ Step(c, d) ==
            \* Stream::process_packet: routed by destination = by sender
            role == IF p.from = s0.client THEN "cf" ELSE "sf"
            fl0 == IF role = "cf" THEN s0.cf ELSE s0.sf
-           fl1 == UpdateState(fl0, p)
-           r == IF p.len > 0 THEN ProcessPayload(fl1, p.off, p.len) ELSE [k |-> fl1.k, buf |-> fl1.buf, added |-> FALSE]
+           fl1 == IF Variant = "ignore_before_state" /\ ((ignore = "client" /\ role = "cf") \/ (ignore = "server" /\ role = "sf")) THEN fl0 ELSE UpdateState(fl0, p)
+           \* Flow::process_packet: the state is updated first, then flags_.ignore_data_packets ends the call
+           ignored == (ignore = "client" /\ role = "cf") \/ (ignore = "server" /\ role = "sf")
+           r == IF p.len > 0 /\ ~ignored THEN ProcessPayload(fl1, p.off, p.len) ELSE [k |-> fl1.k, buf |-> fl1.buf, added |-> FALSE]
            fl2 == [fl1 EXCEPT !.k = r.k, !.buf = r.buf]
            s1 == IF role = "cf" THEN [s0 EXCEPT !.cf = fl2, !.last = 0] ELSE [s0 EXCEPT !.sf = fl2, !.last = 0]
            dataCb == IF r.added THEN << Cb(IF role = "cf" THEN "cdata" ELSE "sdata", c, Bytes(c, p.from, fl1.k, r.k - fl1.k), "", "?") >> ELSE << >>
@@ -144,7 +147,7 @@ Step(c, d) ==
                         live |-> SetToSeq(DOMAIN tb2),
                         chunks |-> Cardinality(s1.cf.buf) + Cardinality(s1.sf.buf), bytes |-> SumBytes(s1.cf.buf) + SumBytes(s1.sf.buf),
                         buf |-> [c |-> ChunkRecs(c, "c", bufOf("c")), s |-> ChunkRecs(c, "s", bufOf("s"))], thrown |-> ""]
-           j == A!Judge(cn0, [attach |-> attach, keepAlive |-> KeepAlive, maxChunks |-> MaxChunks, maxBytes |-> MaxBytes], obs)
+           j == A!Judge(cn0, [attach |-> attach, keepAlive |-> KeepAlive, maxChunks |-> MaxChunks, maxBytes |-> MaxBytes, ignore |-> ignore], obs)
        IN /\ table' = tb2 /\ lastCleanup' = (IF sweepDue THEN 0 ELSE lc0)
           /\ ok' = j.ok /\ conns' = j.next
 
@@ -153,7 +156,7 @@ Next == \E c \in Conn, d \in Deltas :
            /\ Remaining(c) > 0
            /\ pos' = [pos EXCEPT ![c] = @ + 1]
            /\ Step(c, d)
-           /\ UNCHANGED <<sc, attach>>
+           /\ UNCHANGED <<sc, attach, ignore>>
 Spec == Init /\ [][Next]_vars
 
 \* every clause of C07 holds at every step of every interleaving
